@@ -14,7 +14,7 @@ Inductive tphase :=
 | PRun                      (* payload fetch, actor body: no broker effect yet *)
 | PDisposing (k : Z)        (* inside the terminal broker call (1 ack, 2 nack, 3 requeue), before its atomic effect *)
 | PDisposed                 (* effect done: result store, end of process() *)
-| PCancelled.               (* the wrapper saw the cancel event: processing task cancelled, reject under way *)
+| PCancelled.               (* the wrapper saw the cancel event before the report had started: task cancelled, reject under way *)
 
 Record sstate := mkSS {
   waiting : list Z;         (* in the broker's waiting list *)
@@ -60,11 +60,15 @@ Definition effect (s : sstate) (m k : Z) (ts : list (Z * tphase)) : sstate :=
       else mkSS (waiting s) (held s) (acked s) (deadl s) (requeued s ++ [m]) (inloop s) ts (cancelf s) (finished s)
   end.
 
-(* reject: back to the waiting list if it is held *)
+(* reject: back to the waiting list.  The in-memory broker ignores the reject of a message it does not hold; the Redis client
+   puts the name back unconditionally (repid/connections/redis/message_broker.py, reject).  The model takes the harsher
+   reading: the theorems below show that the worker never rejects a message that is not held (since the fixes c813f53 /
+   8f0dac3 a report to the broker that has been started runs to its end and is never followed by a reject), and an
+   in-memory trace in which it did would not be accepted. *)
 Definition give_back (s : sstate) (m : Z) (il : list Z) (ts : list (Z * tphase)) : sstate :=
   match rem1 m (held s) with
   | Some h' => mkSS (waiting s ++ [m]) h' (acked s) (deadl s) (requeued s) il ts (cancelf s) (finished s)
-  | None => mkSS (waiting s) (held s) (acked s) (deadl s) (requeued s) il ts (cancelf s) (finished s)
+  | None => mkSS (waiting s ++ [m]) (held s) (acked s) (deadl s) (requeued s) il ts (cancelf s) (finished s)
   end.
 
 (* `strict` = the shutdown order since the fix: consumers are finished only when no processing task is left *)
@@ -108,9 +112,14 @@ Definition sstep (strict : bool) (s : sstate) (e : sev) : option sstate :=
   | SCancel => Some (mkSS (waiting s) (held s) (acked s) (deadl s) (requeued s) (inloop s) (tasks s) true (finished s))
   | STaskCancel m =>
       if negb (cancelf s) then None else
+      (* only a task that has not started its report is cancelled-and-rejected; `lax` (the runner before c813f53) also
+         cancelled a task inside its terminal call or after it *)
       match get_task m (tasks s) with
+      | Some PRun => Some (mkSS (waiting s) (held s) (acked s) (deadl s) (requeued s) (inloop s) (set_task m PCancelled (tasks s)) (cancelf s) (finished s))
+      | Some (PDisposing _) | Some PDisposed =>
+          if strict then None
+          else Some (mkSS (waiting s) (held s) (acked s) (deadl s) (requeued s) (inloop s) (set_task m PCancelled (tasks s)) (cancelf s) (finished s))
       | Some PCancelled | None => None
-      | Some _ => Some (mkSS (waiting s) (held s) (acked s) (deadl s) (requeued s) (inloop s) (set_task m PCancelled (tasks s)) (cancelf s) (finished s))
       end
   | SRejectEffect m =>
       match get_task m (tasks s) with
